@@ -170,6 +170,22 @@ pub fn c12(g: &mut Gen) {
         let s = samples_tok(g, &net, &out, n);
         g.push(format!("net {} validate {} {} {} 0", net.token(), n, s, hx(0.3)), Tol::Tight, "validate/feedback-block", true);
     }
+    // validate called while the training flags are on (as `learn` does every epoch), on networks with dropout inside
+    // and outside feedback blocks: still the mean loss / accuracy of the network's (inference-mode) predictions
+    for variant in 0..g.n(4, 12) {
+        let cfgd = ArchCfg { wscale: 0.5, acts: vec!["tanh", "sigmoid", "linear"], dropout: false, ..ArchCfg::small() };
+        let mut inner = dense_spec(g, &cfgd, 3, 3, "tanh", true);
+        if let InnerSpec::Dense { dropout, .. } = &mut inner { *dropout = Some(0.5); }
+        let mut first = dense_spec(g, &cfgd, 3, 3, "tanh", true);
+        if variant % 2 == 0 { if let InnerSpec::Dense { dropout, .. } = &mut first { *dropout = Some(0.3); } }
+        let builds = vec![Build::Layer(first), Build::Feedback { inner: vec![inner], loops: 1 + variant % 3, inskips: false, outskips: false, acc: "mean".into() },
+            Build::Layer(dense_spec(g, &cfgd, 3, 2, "linear", true))];
+        let net = NetSpec { input: Shape::Single(3), builds, skipacc: "add".into(), loopacc: "mean".into(), opt: None, obj: "mse".into(), clamp: None };
+        for n in [1usize, 5, 65] {
+            let s = samples_tok(g, &net, &Sh::Flat(2), n);
+            g.push(format!("net {} validate {} {} {} 1", net.token(), n, s, hx(0.3)), Tol::Tight, &format!("validate/training-flags-on/{}", n), true);
+        }
+    }
     // arg-max ties and single-output accuracy at the tolerance boundary
     let cfg1 = ArchCfg { final_dense: Some(1), max_layers: 1, flat_input: Some(true), conv: false, deconv: false, pool: false, ..ArchCfg::small() };
     for _ in 0..g.n(10, 100) {
@@ -481,6 +497,26 @@ pub fn c10(g: &mut Gen) {
                 }
             }
         }
+    }
+    // heterogeneous blocks (layers with different parameter counts) whose length and loop count share a factor:
+    // the reported parameter count must still count exactly one repetition
+    for loops in [1usize, 2, 3, 4] {
+        let d1 = dense_spec(g, &cfg, 3, 5, "tanh", true);
+        let d2 = dense_spec(g, &cfg, 5, 3, "tanh", false);
+        let net = NetSpec { input: Shape::Single(3), builds: vec![Build::Feedback { inner: vec![d1, d2], loops, inskips: false, outskips: false, acc: "mean".into() },
+            Build::Layer(dense_spec(g, &cfg, 3, 2, "tanh", true))], skipacc: "add".into(), loopacc: "mean".into(), opt: None, obj: "mse".into(), clamp: None };
+        g.push(format!("net {} shapes", net.token()), Tol::Exact, &format!("parameters/heterogeneous/L{}", loops), true);
+        let e1 = dense_spec(g, &cfg, 4, 7, "tanh", true);
+        let e2 = dense_spec(g, &cfg, 7, 2, "tanh", true);
+        let e3 = dense_spec(g, &cfg, 2, 4, "tanh", false);
+        let net3 = NetSpec { input: Shape::Single(4), builds: vec![Build::Feedback { inner: vec![e1, e2, e3], loops, inskips: false, outskips: false, acc: "add".into() }],
+            skipacc: "add".into(), loopacc: "mean".into(), opt: None, obj: "mse".into(), clamp: None };
+        g.push(format!("net {} shapes", net3.token()), Tol::Exact, &format!("parameters/heterogeneous3/L{}", loops), true);
+        let c1 = InnerSpec::Conv { filters: 2, act: "tanh".into(), k: (3, 3), s: (1, 1), p: (1, 1), d: (1, 1), dropout: None, ks: (0..2).map(|_| weights(g, &Shape::Triple(1, 3, 3), 0.4)).collect() };
+        let c2 = InnerSpec::Conv { filters: 1, act: "tanh".into(), k: (1, 1), s: (1, 1), p: (0, 0), d: (1, 1), dropout: None, ks: vec![weights(g, &Shape::Triple(2, 1, 1), 0.4)] };
+        let netc = NetSpec { input: Shape::Triple(1, 4, 4), builds: vec![Build::Feedback { inner: vec![c1, c2], loops, inskips: false, outskips: false, acc: "mean".into() }],
+            skipacc: "add".into(), loopacc: "mean".into(), opt: None, obj: "mse".into(), clamp: None };
+        g.push(format!("net {} shapes", netc.token()), Tol::Exact, &format!("parameters/heterogeneous-conv/L{}", loops), true);
     }
     // the `overwrite` coupling is not implemented: training such a block is refused
     let (mut net, out) = block_net(g, &cfg, 2, false, false, "overwrite", false, true, false);
